@@ -1023,7 +1023,14 @@ func ledgerHistory(c *Ctx, id int) {
 				continue
 			}
 			pooled = pooled[:0]
-			if !momentum() {
+			// (confirmed by a producer that does not run its contract phase: both calls stay unanswered)
+			if _, err := n.MomentumWithoutContractPhase(); err != nil {
+				c.Hit("queue-manual-momentum-failed")
+				if !momentum() {
+					return
+				}
+			}
+			if r.failed {
 				return
 			}
 			for _, target := range []*nom.AccountBlock{s2, s1} {
@@ -1037,6 +1044,9 @@ func ledgerHistory(c *Ctx, id int) {
 				if p := safely(func() { ce, gerr = n.Sup.GenerateAutoReceive(send) }); p != "" || gerr != nil || ce == nil || ce.Transaction == nil {
 					if target == s2 {
 						c.Hit("queue-second-first-refused")
+						if gerr != nil {
+							c.Hit("queue-second-first-refused-" + strings.ReplaceAll(firstLine(gerr.Error()), " ", "-"))
+						}
 					}
 					continue
 				}
